@@ -256,6 +256,71 @@ fn check_large(t: &mut Tally, scratch: &Path, n: usize) {
     }
 }
 
+/// The database is what the directory tree is *now*: iterate, change which directories are
+/// complete (remove a mandatory file here, add the missing one there, swap a file for a
+/// dangling link), put every modification time back to what it was (10 s in the past), and
+/// iterate again with a fresh PkgDB and with a second pass over the same tree.
+fn check_reiterate(t: &mut Tally, scratch: &Path, id: usize) {
+    t.evals += 1;
+    t.validated += 1;
+    let root = scratch.join(format!("again{}", id));
+    let _ = std::fs::remove_dir_all(&root);
+    let past = std::time::SystemTime::now() - std::time::Duration::from_secs(10 + id as u64);
+    let set_time = |p: &Path| -> std::io::Result<()> { std::fs::File::open(p)?.set_modified(past) };
+    let list = |root: &Path| -> Result<Vec<String>, String> {
+        let mut v = vec![];
+        for p in PkgDB::open(root).map_err(|e| e.to_string())? {
+            v.push(p.map_err(|e| e.to_string())?.pkgname().clone());
+        }
+        v.sort();
+        Ok(v)
+    };
+    let built = (|| -> std::io::Result<()> {
+        for (n, complete) in [("alpha-1.0", true), ("beta-2.0", true), ("gamma-3.0", false), ("delta-4.0", true)] {
+            let d = root.join(n);
+            std::fs::create_dir_all(&d)?;
+            for (k, f) in MANDATORY.iter().enumerate() {
+                if complete || k != id % 3 {
+                    std::fs::write(d.join(f), content(n, f))?;
+                    set_time(&d.join(f))?;
+                }
+            }
+            set_time(&d)?;
+        }
+        set_time(&root)
+    })();
+    if built.is_err() {
+        mc_core::run::machinery_fault("cannot build the scratch database");
+    }
+    let r = guard(|| -> Result<(Vec<String>, Vec<String>, Vec<String>), String> {
+        let first = list(&root)?;
+        // alpha loses a mandatory file, gamma gains its missing one, delta's +DESC becomes a dangling link
+        let miss = MANDATORY[id % 3];
+        std::fs::remove_file(root.join("alpha-1.0").join(miss)).map_err(|e| e.to_string())?;
+        std::fs::write(root.join("gamma-3.0").join(miss), content("gamma-3.0", miss)).map_err(|e| e.to_string())?;
+        std::fs::remove_file(root.join("delta-4.0").join("+DESC")).map_err(|e| e.to_string())?;
+        std::os::unix::fs::symlink("no-such-target", root.join("delta-4.0").join("+DESC")).map_err(|e| e.to_string())?;
+        for n in ["alpha-1.0", "gamma-3.0", "delta-4.0"] {
+            let _ = set_time(&root.join(n).join(miss));
+            set_time(&root.join(n)).map_err(|e| e.to_string())?;
+        }
+        set_time(&root).map_err(|e| e.to_string())?;
+        let second = list(&root)?;
+        let third = list(&root)?;
+        Ok((first, second, third))
+    });
+    let _ = std::fs::remove_dir_all(&root);
+    let want1: Vec<String> = vec!["alpha-1.0".into(), "beta-2.0".into(), "delta-4.0".into()];
+    let want2: Vec<String> = vec!["beta-2.0".into(), "gamma-3.0".into()];
+    match r {
+        Ok(Ok((a, b, c))) if a == want1 && b == want2 && c == want2 => {
+            t.nontrivial += 1;
+            t.outcome("reiterate/follows-the-tree");
+        }
+        other => t.violation(Violation::new("reiterate", json!({"variant": id}), json!({"first": want1, "after the change": want2}), json!(format!("{:?}", other)), "iteration lists the directories that contain the three files now, not those that did at an earlier iteration")),
+    }
+}
+
 fn check_names(t: &mut Tally, scratch: &Path, id: usize, names: &[String]) {
     t.evals += 1;
     t.validated += 1;
@@ -274,6 +339,14 @@ fn check_names(t: &mut Tally, scratch: &Path, id: usize, names: &[String]) {
         std::fs::create_dir_all(root.join("incomplete-1.0"))?;
         std::fs::write(root.join("incomplete-1.0").join("+DESC"), b"x")?;
         std::fs::write(root.join("stray-file-1.0"), b"x")?;
+        // files whose names are not UTF-8, next to the mandatory files of the first package and
+        // in the database directory itself: they are not packages and do not un-make one
+        use std::os::unix::ffi::OsStrExt;
+        if let Some(n) = names.first() {
+            std::fs::write(root.join(n).join(std::ffi::OsStr::from_bytes(b"stray-\xff")), b"x")?;
+            std::fs::write(root.join(n).join(std::ffi::OsStr::from_bytes(b"+\xe9XTRA")), b"x")?;
+        }
+        std::fs::write(root.join(std::ffi::OsStr::from_bytes(b"stray-\xfe-1.0")), b"x")?;
         Ok(())
     })();
     if built.is_err() {
@@ -435,6 +508,7 @@ fn replay(run: &Run, doc: &Value) -> Option<Violation> {
             let l = Layout { dirs, stray: c["stray"].as_u64().unwrap_or(0) as u8 };
             check_layout(&mut t, &run.scratch_dir(), 0, &l);
         }
+        Some("reiterate") => check_reiterate(&mut t, &run.scratch_dir(), c["variant"].as_u64().unwrap_or(0) as usize),
         Some("large") => check_large(&mut t, &run.scratch_dir(), c["packages"].as_u64().unwrap_or(1) as usize),
         Some("names") => {
             let names: Vec<String> = c["complete_directories"].as_array().map(|a| a.iter().filter_map(|x| x.as_str().map(|s| s.to_string())).collect()).unwrap_or_default();
@@ -544,6 +618,16 @@ fn main() {
             t.states += 1;
             t.transitions += *n as u64;
             check_large(t, &scratch, *n);
+        });
+    }
+    // the tree changes between two iterations while every modification time is put back
+    {
+        let ids: Vec<usize> = (0..6).collect();
+        run.bound("re-iteration: 6 variants of a 4-directory tree changed between iterations (a file removed, a file added, a file replaced by a dangling link) with all modification times restored");
+        par_items(&run, "C20 re-iteration", &ids, |_, i, t| {
+            t.states += 1;
+            t.transitions += 3;
+            check_reiterate(t, &scratch, *i);
         });
     }
     let mut t = Tally::new();
